@@ -688,11 +688,107 @@ Example C02_exit_example :
                        && list_eqb cst_eqb (t_calls t) [Ret Nil; Ret ErrNoSuchJob]
                        && list_eqb N.eqb (t_starts t) [2]) (finals exit_example) = true
   /\ (let ob o := {| ob_out := o; ob_listed := o_exists o; ob_hung := false; ob_running := 0; ob_dup := None;
-                      ob_insts := [2]; ob_foreign := [false; false]; ob_count := 1 |} in
+                      ob_insts := [2]; ob_foreign := [false; false]; ob_byprefix := [false; false]; ob_sibs := []; ob_count := 1 |} in
       after_exit_ok exit_example
         (ob {| o_calls := [Ret Nil; Ret ErrNoSuchJob]; o_starts := [2]; o_overlap := 1; o_exists := false;
                o_reuse := Nil; o_reuse_runs := 1; o_panic := false |}) = true
       /\ after_exit_ok exit_example
         (ob {| o_calls := [Ret Nil; Ret Nil]; o_starts := [2]; o_overlap := 1; o_exists := true;
                o_reuse := ErrJobAlreadyExists; o_reuse_runs := 0; o_panic := false |}) = false).
+Proof. vm_compute. repeat split; reflexivity. Qed.
+
+(* --- a cancellation takes effect whatever the goroutine is doing (strengthening round 5) ----------
+   CancelJobs(prefix) = the names with the prefix are collected, CancelJobIfExists on each; CancelJobIfExists
+   = CancelJob with its result dropped.  A periodic job stays listed while an instance is in progress and
+   while a run request has claimed it ([active] set): none of the cancelling calls looks at [active]. *)
+From Verif Require Import Proofs.C02_Prefix.
+
+(* under EVERY schedule of every configuration a listed job can be claimed by a cancellation -- waiting, an
+   instance in progress, claimed by a run request: whatever [g_pc] and [active] are --, and the claim takes
+   the entry out of the table and changes nothing else of the job *)
+Theorem C02_listed_job_is_cancellable :
+  forall cf sch, let s := run (step cf) sch (init cf) in
+    in_table s = true ->
+    exists s', step cf s CancelLookup = Some s' /\ in_table s' = false /\ c_pc s' = CHave
+               /\ g_pc s' = g_pc s /\ active s' = active s /\ running s' = running s /\ runs s' = runs s.
+Proof. exact listed_job_is_cancellable. Qed.
+Print Assumptions C02_listed_job_is_cancellable.
+
+(* once a CancelJob has returned nil: the entry is gone, the job is finalised, and whenever the goroutine is
+   (back) in its select -- at once if it waited, after the instance in progress if not -- the cancel branch is
+   ready and taking it runs nothing *)
+Theorem C02_cancelled_job_is_leaving :
+  forall cf sch, let s := run (step cf) sch (init cf) in
+    cancel_ok s = true ->
+    in_table s = false /\ finalised s = true
+    /\ (g_pc s = GSel -> exists s', step cf s (GPick BCancel) = Some s' /\ g_pc s' = GCanFin /\ runs s' = runs s).
+Proof. exact cancelled_job_is_leaving. Qed.
+Print Assumptions C02_cancelled_job_is_leaving.
+
+(* EVERY script, one-off or periodic, any calls at any instants, every interleaving: a state in which the
+   script can end with a CancelJob that returned nil -- wherever it landed --, no jobFunc in flight and no call
+   stuck in a state-lock section is one in which the goroutine has returned and the name is free *)
+Theorem C02_script_cancel_exit_leaves_table :
+  forall sc t, In t (finals sc) ->
+    cancel_ok (t_core t) = true -> running (t_core t) = 0 -> lock_free (t_core t) = true ->
+    g_pc (t_core t) = GDone /\ in_table (t_core t) = false
+    /\ o_exists (outcome_of t) = false /\ o_reuse (outcome_of t) = Nil /\ o_reuse_runs (outcome_of t) = 1.
+Proof. exact script_cancel_exit_leaves_table. Qed.
+Print Assumptions C02_script_cancel_exit_leaves_table.
+
+Theorem C02_checked_observation_cancel_exit_leaves_table :
+  forall c sc os, agree c = true -> c_body c = Timed sc os ->
+    forall ob, In ob os -> ob_hung ob = false -> ob_running ob = 0 ->
+    exists t, In t (finals sc) /\ running (t_core t) = 0
+      /\ (cancel_ok (t_core t) = true -> lock_free (t_core t) = true ->
+          o_exists (ob_out ob) = false /\ o_reuse (ob_out ob) = Nil /\ o_reuse_runs (ob_out ob) = 1).
+Proof. exact checked_cancel_exit_leaves_table. Qed.
+Print Assumptions C02_checked_observation_cancel_exit_leaves_table.
+
+(* the table: CancelJobs with a prefix that exactly the names of [l] have returns nothing to complain about,
+   removes exactly the listed names of [l], leaves every other entry, calls no job function, accepts no job *)
+Theorem C02_cancel_by_prefix_table :
+  forall s l, let s' := fst (tb_step s (TCancelSet l)) in
+    snd (tb_step s (TCancelSet l)) = TCode Nil
+    /\ (forall m, t_get (tb_table s') m = if existsb (N.eqb m) l then None else t_get (tb_table s) m)
+    /\ tb_runs s' = tb_runs s /\ tb_next s' = tb_next s.
+Proof. exact cancel_set_table. Qed.
+Print Assumptions C02_cancel_by_prefix_table.
+
+(* what the clause [cancelled_never_runs] of P_b demands of an observation, for a cancellation at [tc] that
+   took effect: every start is at the time of an instance not after [tc] or has a run request issued no later
+   than [tc]; without such a request nothing starts after [tc] *)
+Theorem C02_cancelled_instances_start_nothing :
+  forall dur sts insts runs tc,
+    justified dur None sts (filter (fun L => L <=? tc) insts) (filter (fun r => r <=? tc) runs) = true ->
+    (forall s, In s sts -> (In s insts /\ s <= tc) \/ (exists r, In r runs /\ r <= tc /\ r <= s))
+    /\ ((forall r, In r runs -> tc < r) -> forall s, In s sts -> In s insts /\ s <= tc).
+Proof. exact cut_justified. Qed.
+Print Assumptions C02_cancelled_instances_start_nothing.
+
+(* non-vacuity: period 2, jobFunc takes 2, cancelled at 3 while the first instance (started at 2) is in
+   progress: every final state of the model's script has the cancellation returned nil, the goroutine
+   returned, the name free, one start.  P_b accepts that observation made through CancelJobs (no result seen)
+   and rejects the one in which the job was left out because it was active: it goes on ticking, it is listed. *)
+Definition prefix_example : script :=
+  {| sc_kind := Periodic; sc_variant := Fixed; sc_due := 2; sc_dur := 2; sc_ticks := 9;
+     sc_calls := [{| cl_at := 3; cl_kind := KCancel |}]; sc_end := 14 |}.
+
+Example C02_prefix_example :
+  (0 <? N.of_nat (length (finals prefix_example))) = true
+  /\ forallb (fun t => cancel_ok (t_core t) && gpc_eqb (g_pc (t_core t)) GDone && negb (in_table (t_core t))
+                       && list_eqb cst_eqb (t_calls t) [Ret Nil] && list_eqb N.eqb (t_starts t) [2]) (finals prefix_example) = true
+  /\ (let ob o insts := {| ob_out := o; ob_listed := o_exists o; ob_hung := false; ob_running := 0; ob_dup := None;
+                            ob_insts := insts; ob_foreign := [false]; ob_byprefix := [true];
+                            ob_sibs := [{| sb_match := true; sb_listed := o_exists o; sb_runs := 0 |};
+                                        {| sb_match := false; sb_listed := true; sb_runs := 0 |}]; ob_count := 1 |} in
+      let good := ob {| o_calls := [Silent]; o_starts := [2]; o_overlap := 1; o_exists := false;
+                        o_reuse := Nil; o_reuse_runs := 1; o_panic := false |} [2; 6] in
+      let bad := ob {| o_calls := [Silent]; o_starts := [2; 6; 10]; o_overlap := 1; o_exists := true;
+                       o_reuse := ErrJobAlreadyExists; o_reuse_runs := 0; o_panic := false |} [2; 6; 10; 14] in
+      P_timed_exact prefix_example good = true /\ timed_ok (finals prefix_example) good = true
+      /\ cancelled_never_runs prefix_example bad = false /\ after_exit_ok prefix_example bad = false
+      /\ timed_ok (finals prefix_example) bad = false)
+  /\ (let '(s, outs) := tb_run tb_init [TSched 1 true; TSched 2 false; TSched 3 false; TCancelSet [1; 3; 5]; TList; TSched 1 false] in
+      outs = [TCode Nil; TCode Nil; TCode Nil; TCode Nil; TNames [2]; TCode Nil]).
 Proof. vm_compute. repeat split; reflexivity. Qed.
